@@ -44,6 +44,11 @@ func c17KeyTagDS(w *core.W, j int) {
 			}
 		case 2: // constructed: the folded sum lands in [0x10000, 0x1000F]
 			pub = c17CarryKey(r.IntN(2) == 0, flags, proto, alg, g)
+		case 3:
+			// the largest RDATA the library's 4096-octet scratch buffers hold (4 + 4092 octets), and the 300
+			// sizes below it: owner name and RDATA are both hashed, neither may crowd out the other
+			pub = g.Bytes(4092 - []int{0, 0, 1, 2, r.IntN(16), r.IntN(300)}[r.IntN(6)])
+			w.Count("keys_near_4096_octets", 1)
 		default:
 			pub = g.Bytes(1 + r.IntN(520))
 		}
@@ -359,7 +364,7 @@ func c17Cover(w *core.W, j int) {
 // key sizes incl. the largest RSA modulus Generate accepts (4096 bits = 512 octets) and one that is
 // not a multiple of 64 bits
 var c17KeyBits = map[uint8][]int{
-	dns.RSASHA1: {1024, 3072}, dns.RSASHA1NSEC3SHA1: {2048, 1024}, dns.RSASHA256: {1024, 2048, 4096, 1032}, dns.RSASHA512: {1024, 4096},
+	dns.RSASHA1: {1024, 3072, 1026}, dns.RSASHA1NSEC3SHA1: {2048, 1024}, dns.RSASHA256: {1024, 2048, 4096, 1032, 1031}, dns.RSASHA512: {1024, 4096, 2044},
 	dns.ECDSAP256SHA256: {256}, dns.ECDSAP384SHA384: {384}, dns.ED25519: {256},
 }
 
